@@ -40,13 +40,11 @@ def set_cur(c):
 
 
 def frac_of_float(x: float) -> fractions.Fraction:
-    """Floats are read as their shortest decimal representation (DESIGN 2.1)."""
+    """Floats are read as the exact rational value of the double (DESIGN 3/1a)."""
     x = float(x)
     if x != x or x in (math.inf, -math.inf):
         raise ValueError("non-finite float in symbolic session")
-    if x == int(x) and abs(x) < 2**53:
-        return fractions.Fraction(int(x))
-    return fractions.Fraction(repr(x))
+    return fractions.Fraction(x)
 
 
 def rv(x) -> z3.ArithRef:
@@ -355,6 +353,19 @@ class SReal:
 
     def isinf(self):
         return SBool(False)
+
+    ndim = 0
+    shape = ()
+    size = 1
+
+    def astype(self, dtype, *a, **k):
+        if dtype in (float, np.float64, object):
+            return self
+        if dtype in (int, np.int64):
+            return int(self)
+        if dtype in (bool, np.bool_):
+            return bool(self)
+        raise TypeError(f"astype({dtype}) of symbolic scalar")
 
     @property
     def real(self):
